@@ -177,6 +177,8 @@ class Anatomy:
     history: object = None  # Val
     stores: list = field(default_factory=list)  # (stmt, target_name, index_node, value_node)
     assign_lines: dict = field(default_factory=dict)
+    store_cond: dict = field(default_factory=dict)
+    store_kind: dict = field(default_factory=dict)
     stat_names: set = field(default_factory=set)
 
 
@@ -194,6 +196,25 @@ def flatten(stmts):
             yield from flatten(st.body)
         else:
             yield st
+
+
+def _record_store(an, tx, st, cond):
+    tgt = st.targets[0]
+    name = norm(tgt.value)
+    an.stores.append((st, name, tgt.slice, st.value))
+    an.store_cond[id(st)] = cond
+    # is the target the statistic, or the already capped p-value history?
+    kind = "stat"
+    v = tx.env.get(name)
+    if v is not None:
+        try:
+            for row in symx.rows(symx.val_atoms(v)):
+                leaf = symx.eval_val(v, row)
+                if isinstance(leaf, sp.Min) and sp.Integer(1) in leaf.args:
+                    kind = "history"
+        except Exception:
+            pass
+    an.store_kind[id(st)] = kind
 
 
 def anatomy(idx, name) -> Anatomy:
@@ -214,7 +235,7 @@ def anatomy(idx, name) -> Anatomy:
         if isinstance(st, ast.Assign):
             tgt = st.targets[0]
             if isinstance(tgt, ast.Subscript):
-                an.stores.append((st, norm(tgt.value), tgt.slice, st.value))
+                _record_store(an, tx, st, True)
                 continue
             v = tx.expr(st.value)
             for t in st.targets:
@@ -224,6 +245,15 @@ def anatomy(idx, name) -> Anatomy:
             body_only_raise = all(isinstance(s, ast.Raise) for s in st.body) and not st.orelse
             if body_only_raise:
                 # the walrus in `if negs := ... > 0` may bind a name; harmless
+                continue
+            # an `if` whose branches consist of in-place stores only: conditional overrides
+            only_stores = all(isinstance(s, ast.Assign) and isinstance(s.targets[0], ast.Subscript) for s in st.body + st.orelse)
+            if only_stores and (st.body or st.orelse):
+                c = tx.cond(st.test)
+                for s in st.body:
+                    _record_store(an, tx, s, c)
+                for s in st.orelse:
+                    _record_store(an, tx, s, symx.c_not(c))
                 continue
             r = tx.block([st])
             if r is not None:
